@@ -119,6 +119,33 @@ def run(c, chk):
     else:
         # the lookup the parser calls is a function of its own (it shares the section walk with the index variant)
         n2 = judge('cfg_getopt', lambda v: v == sym.C0, filt=flag_off)
+    # ... and the "not found" that is the NULL of the leaf lookup handed on (not a constant): the parser gives up on it without a word
+    # of its own ("cfg_getopt() reports all but the empty name"), so the lookup must have reported - unless the context the parser is
+    # reading is itself a free-form one, where the parser goes on to create the key
+    nn = 0
+    if any(True for _ in c.need('cfg_getopt').calls('cfg_getopt_secidx')):
+        lookup_paths = fa.paths(gfn, env={gfn.params[2].name: sym.C0})
+    else:
+        lookup_paths = fa.paths(c.need('cfg_getopt'))
+    for p in lookup_paths:
+        if p.end != 'ret' or p.retval is None or p.retval == sym.C0 or not flag_off(p):
+            continue
+        handed = any((lambda na: na is not None and na[1] and na[0] == p.retval)(fp.is_null_assumption(cn, t)) for cn, t, _ in p.assume)
+        if not handed:
+            continue
+        nn += 1
+        if p.calls('cfg_error'):
+            continue
+        conds = [('' if t else '!') + pm.describe_cond(cn) for cn, t, _ in p.assume]
+        if 'cfg->flags has KEYSTRVAL' in conds:
+            continue
+        # (identity of the finding: which flag test made the lookup keep quiet)
+        quiet_for_keyval = any(x.endswith('->flags has KEYSTRVAL') and not x.startswith('!') and not x.startswith('cfg->flags') for x in conds)
+        why_quiet = ['KEYSTRVAL-of-a-section-reached-by-path'] if quiet_for_keyval else [fp.cond_key(p)]
+        chk.fail('R6.1', 'resolver-silent-not-found:%s' % '+'.join(why_quiet), c.where(p.last_ins) if p.last_ins is not None else c.where(gfn),
+                 'cfg_getopt_secidx() returns "not found" without a diagnostic although the context the parser reads is not a free-form one (%s): the parser then rejects the '
+                 'text in silence - e.g. "kv|newkey" = 1 where kv is a CFGF_KEYSTRVAL section reached by path' % fp.cond_text(p, 5))
+    chk.floor('R6.1 not-found paths of the resolver', nn, 2)
     n3 = judge('call_function', lambda v: v != sym.C0)
     n4 = judge('cfg_include', lambda v: v != sym.C0)
     chk.floor('R6.1 failing paths of cfg_setopt', n1, 50)
